@@ -65,6 +65,13 @@ FRAC_MAX_POINTS = 150  # the exact (Fraction) run of tune_centroid is made when 
 POS_TOL = 1e-9
 MARGIN_TOL = 1000  # margins travel scaled by 1e12: 1000 = 1e-9
 SIG_F21 = "adaptive-nonterminating:backstep-ascending-threshold>=1"
+SIG_STATIONARY = "adaptive-nonterminating:backstep-ascending-threshold==1:stationary-step"
+
+
+def _stationary_tail(obs, k=20):
+    """the last k iterations measured the same position with the same step"""
+    pos, steps = obs.get("pos", []), obs.get("steps", [])
+    return len(pos) >= k and len(steps) >= k and len(set(pos[-k:])) == 1 and len(set(steps[-k:])) == 1
 SIG_ULP = "tune-out-of-range:park:float-rounding-of-boundary-centroid"
 
 
@@ -418,7 +425,11 @@ def oracle_adaptive(case, obs):
     if obs["status"] == "cap" and not valid:
         bad.append(("adaptive-nonterminating:invalid-parameters-accepted", f"min_step={mn}, max_step={mx} accepted and still running after {MSG_CAP} messages"))
     elif obs["status"] == "cap":
-        if excluded:
+        if excluded and Q(case["threshold"]) == 1 and _stationary_tail(obs):
+            # threshold == 1: the documented back-step test `new_step < step * threshold` is strict, so a back-step always
+            # shrinks the step; a run that sits at ONE position with ONE step value is not the open finding F21
+            bad.append((SIG_STATIONARY, f"adaptive_scan(backstep=True, threshold=1) ascending {s}->{e}: re-measures position {obs['pos'][-1]!r} with an unchanged step {obs['steps'][-1]!r} for ever ({MSG_CAP} messages / {len(obs['pos'])} points)"))
+        elif excluded:
             bad.append((SIG_F21, f"adaptive_scan(backstep=True, threshold={case['threshold']}) ascending {s}->{e}: still running after {MSG_CAP} messages / {len(obs['pos'])} points; last positions {obs['pos'][-3:]}"))
         elif bound is not None and bound * 9 < MSG_CAP:
             bad.append((f"adaptive-nonterminating:{'backstep' if case['backstep'] else 'no-backstep'}:{'ascending' if e >= s else 'descending'}", f"still running after {MSG_CAP} messages although the proven bound is {bound - 1} points; last positions {obs['pos'][-3:]}"))
